@@ -661,7 +661,7 @@ func parseDeviceTable(src []byte, offset uint16) (DeviceTable, error) {
 		}
 
 		nbPerUint16 := 16 / (1 << format) // 8, 4 or 2
-		outLength := int(out.EndSize - out.StartSize + 1)
+		outLength := int(out.EndSize) - int(out.StartSize) + 1 // on 16 bits, [0, 0xFFFF] would wrap to 0
 		var count int
 		if outLength%nbPerUint16 == 0 {
 			count = outLength / nbPerUint16
